@@ -25,7 +25,7 @@ const verifDir = "/verif"
 var accepted = map[string][]string{
 	"C01": {"get", "scan", "write-err", "compact-err", "open", "close-err", "panic", "txget", "tx-open", "tx-commit"},
 	"C02": {"iter", "snapiter", "txiter", "panic"},
-	"C03": {"snapget", "snapiter", "iter", "snap", "snap-unstable", "panic"},
+	"C03": {"snapget", "snapiter", "iter", "txiter", "snap", "snap-unstable", "panic"},
 	"C04": {"open", "scan", "get", "iter", "snapget", "snapiter", "txget", "txiter", "write-err", "compact-err", "panic", "hang", "tx-open", "tx-commit"},
 	"C05": {"lin", "monotonic", "panic"},
 	"C06": {"lsm", "panic"},
